@@ -96,8 +96,8 @@ def fam_polyhedron(ctx, shape, fr_name, order_seed, moving):
 def families(tier, seed):
     rng = random.Random(seed)
     fams = []
-    shapes = [('tri', 'axis'), ('quad', 'oblique'), ('penta', 'axis'), ('hexa', 'pyth3')] if tier == 'quick' else \
-        [(s, f) for s in ('tri', 'quad', 'penta', 'hexa') for f in ('axis', 'oblique', 'pyth3')]
+    shapes = [('tri', 'axis'), ('quad', 'oblique'), ('penta', 'axis'), ('hexa', 'pyth3'), ('para12', 'axis')] if tier == 'quick' else \
+        [(s, f) for s in ('tri', 'quad', 'penta', 'hexa', 'para12') for f in ('axis', 'oblique', 'pyth3')]
     for sh, fr in shapes:
         n = len(B.UNIT_POLYS[sh])
         if n <= 5 and tier == 'thorough':
